@@ -279,6 +279,52 @@ func respell(e edit) []struct {
 	return out
 }
 
+// quoteNumbers returns the edit with the numeric leaves the pairing / exclusivity rules compare written as quoted text
+// (`scale: "2"`, `pids_limit: "5"`, `cpus: "0.25"`): what an interpolated value looks like, and — with SkipInterpolation —
+// what reaches the typed decode uncast.  ok = the edit has such a leaf.
+func quoteNumbers(e edit) (edit, bool) {
+	changed := false
+	keys := map[string]bool{"scale": true, "replicas": true, "cpus": true, "pids_limit": true, "pids": true, "mem_limit": true, "mem_reservation": true}
+	var walk func(v any) any
+	walk = func(v any) any {
+		switch x := v.(type) {
+		case M:
+			out := M{}
+			for k, c := range x {
+				switch n := c.(type) {
+				case int:
+					if keys[k] {
+						out[k], changed = fmt.Sprint(n), true
+						continue
+					}
+				case float64:
+					if keys[k] {
+						out[k], changed = fmt.Sprint(n), true
+						continue
+					}
+				}
+				out[k] = walk(c)
+			}
+			return out
+		case []any:
+			out := make([]any, len(x))
+			for i, c := range x {
+				out[i] = walk(c)
+			}
+			return out
+		}
+		return v
+	}
+	c := e
+	if e.base != nil {
+		c.base = walk(e.base).(M)
+	}
+	if e.frag != nil {
+		c.frag = walk(e.frag).(M)
+	}
+	return c, changed
+}
+
 // editTree is the part of the merged model the structural stage decides the edit on.
 func editTree(e edit) any {
 	if e.frag != nil {
@@ -307,19 +353,43 @@ func hasKeyDeep(v any, key string) bool {
 
 func runC10Opts(ctx *core.Ctx) {
 	r := ctx.Rng
-	// full = every option set; otherwise the sets in `always` plus two others chosen at random
-	always := map[string]bool{"default": true, "SkipInterpolation": true, "SkipNormalization": true, "all-but-the-checks": true}
+	// which option sets a case is loaded under: full (the rule on the main placement) = the three shape-changing sets plus two
+	// others (thorough: all twelve); otherwise one shape-changing set plus one other (thorough: three + three)
+	shape := []string{"SkipInterpolation", "SkipNormalization", "all-but-the-checks"}
+	chosen := func(full bool) map[string]bool {
+		pick := map[string]bool{}
+		others := 1
+		if full {
+			for _, n := range shape {
+				pick[n] = true
+			}
+			others = ctx.Pick(2, len(optSets))
+		} else {
+			pick[shape[[]int{0, 2}[r.Intn(2)]]] = true
+			if ctx.Pick(0, 1) == 1 {
+				for _, n := range shape {
+					pick[n] = true
+				}
+				others = 3
+			}
+		}
+		for i := 0; i < others; i++ {
+			pick[optSets[r.Intn(len(optSets))].name] = true
+		}
+		return pick
+	}
 	add := func(l layout, expect, rule, pl string, tree any, full bool) {
 		usesInclude, usesExtends := false, false
 		for _, f := range l.files {
 			usesInclude = usesInclude || hasKeyDeep(f, "include")
 			usesExtends = usesExtends || hasKeyDeep(f, "extends")
 		}
+		pick := chosen(full)
 		for _, o := range optSets {
 			if (o.noInclude && usesInclude) || (o.noExtends && usesExtends) {
 				continue
 			}
-			if !full && !always[o.name] && r.Intn(4) != 0 {
+			if !pick[o.name] {
 				continue
 			}
 			req := l.req(nil)
@@ -336,6 +406,9 @@ func runC10Opts(ctx *core.Ctx) {
 	m := genValidModel(r)
 	for _, e0 := range c10Edits() {
 		for _, re := range respell(e0) {
+			if re.sp != "" && re.sp != "bool(true)" && re.sp != "string(yes)" && ctx.Pick(r.Intn(3), 0) != 0 {
+				continue // quick: the two canonical spellings and a third of the others
+			}
 			for _, pl := range []string{"main", "override", "include"} {
 				if re.sp != "" && re.sp != "bool(true)" && pl == "include" && r.Intn(3) != 0 {
 					continue // spellings × include: a third (the included file is a whole load of its own: same stage)
@@ -350,6 +423,19 @@ func runC10Opts(ctx *core.Ctx) {
 					ctx.Count("opts:spelling:" + re.sp)
 				}
 				add(l, "invalid", rule, pl, editTree(re.e), pl == "main" && (re.sp == "" || re.sp == "bool(true)" || re.sp == "string(yes)"))
+			}
+		}
+	}
+	// ---- the pairing / exclusivity rules with their numbers written as quoted text (uncast under SkipInterpolation)
+	for _, e0 := range c10Edits() {
+		q, ok := quoteNumbers(e0)
+		if !ok {
+			continue
+		}
+		for _, pl := range []string{"main", "override"} {
+			if l, ok := applyEdit(m, q, pl); ok {
+				ctx.Count("opts:quoted-numbers")
+				add(l, "invalid", q.rule+"[quoted]", pl, core.EncodeVal(map[string]any{}), pl == "main")
 			}
 		}
 	}
